@@ -303,3 +303,68 @@ class DispatchCallbackFuture(object):
             if n != 1 or obs['replies'][0].get('id') != 11:
                 bad.add('post[1]')
         return bad
+
+
+@register('circus.client:CircusClient.call')
+class ClientCall(object):
+    """real CircusClient.call over a scripted DEALER socket: stale / foreign replies first, then (maybe) the right one"""
+    def from_model(self, m):
+        return []
+
+    def enumerate(self):
+        scripts = [['own'], ['foreign', 'own'], ['stale', 'foreign', 'own'], ['foreign'], [], ['noid', 'own'],
+                   ['foreign', 'foreign', 'foreign', 'own']]
+        for s in scripts:
+            yield {'script': s}
+
+    def run(self, inp):
+        from circus.client import CircusClient
+        from circus.exc import CallError
+        c = CircusClient.__new__(CircusClient)
+        sent = []
+        script = list(inp['script'])
+
+        class Sock(object):
+            def send(self, data):
+                sent.append(json.loads(data))
+
+            def recv(self):
+                kind = script.pop(0)
+                cid = sent[-1]['id']
+                if kind == 'own':
+                    return json.dumps({'id': cid, 'status': 'ok', 'n': 1}).encode()
+                if kind == 'noid':
+                    return json.dumps({'status': 'ok'}).encode()
+                return json.dumps({'id': 'feedbeef' if kind == 'foreign' else 'old-call', 'status': 'ok', 'n': 2}).encode()
+        sock = Sock()
+
+        class Poller(object):
+            def poll(self, timeout):
+                return [(sock, 1)] if script else []
+        c.socket = sock
+        c.poller = Poller()
+        c.timeout = 10
+        obs = {}
+        try:
+            r = c.call({'command': 'list', 'properties': {}})
+            obs['reply'] = r
+        except CallError as e:
+            obs['raised'] = 'CallError'
+        except Exception as e:
+            obs['raised'] = type(e).__name__
+        obs['call_id'] = sent[-1]['id'] if sent else None
+        obs['sent'] = len(sent)
+        return obs
+
+    def check(self, inp, obs):
+        bad = set()
+        if 'reply' in obs:
+            if not isinstance(obs['reply'], dict) or obs['reply'].get('id') != obs['call_id']:
+                bad.add('post[reply-bears-this-calls-id]')
+            if 'own' not in inp['script']:
+                bad.add('post[reply-bears-this-calls-id]')
+        elif obs.get('raised') != 'CallError':
+            bad.add('noescape')
+        if obs['sent'] != 1:
+            bad.add('post[request-carries-the-id]')
+        return bad
